@@ -654,16 +654,20 @@ pub const EXTERN_ENUM_SENTINEL: &str = "__VERIF_EXTERN_REJECT__";
 
 /// For every enum leaf of the payload whose value belongs to exactly one enum of the schema: the
 /// payload with that leaf replaced by `EXTERN_ENUM_SENTINEL`, and the enum's GraphQL name.
-pub fn enum_leaf_sentinels(root: &P, schema: &Schema) -> Vec<(String, Value)> {
+pub fn enum_leaf_sentinels(root: &P, schema: &Schema, cap: usize) -> Vec<(String, Value)> {
     let base = payload(root);
-    let mut out = Vec::new();
+    // the capacity is the cap: nothing beyond it is materialised
+    let mut out = Vec::with_capacity(cap.max(1));
     fn walk(p: &P, path: &mut Vec<PathSeg>, base: &Value, schema: &Schema, out: &mut Vec<(String, Value)>) {
+        if out.len() >= out.capacity() {
+            return;
+        }
         match &p.kind {
             PKind::Null => {}
             PKind::Leaf(LeafKind::Enum, v) => {
                 if let Some(s) = v.as_str() {
                     let owners: Vec<&str> = schema.enums.iter().filter(|e| e.values.iter().any(|x| x == s)).map(|e| e.name.as_str()).collect();
-                    if owners.len() == 1 {
+                    if owners.len() == 1 && out.len() < out.capacity() {
                         out.push((owners[0].to_string(), replaced(base, path, json!(EXTERN_ENUM_SENTINEL))));
                     }
                 }
